@@ -60,12 +60,18 @@ def run_unit(name, rlimit=None, seed=None, timeout=900, prop=None):
     violation of the obligations that no longer hold (DESIGN.md section 8, Brittleness)."""
     r = _run_unit_level(name, 0, rlimit, seed, timeout, prop)
     if r['status'] == 'undecided' and r.get('frontend') and r.get('changed'):
+        last = None
         for level in (1, 2):
             r2 = _run_unit_level(name, level, rlimit, seed, timeout, prop)
             if r2['status'] in ('ok', 'failed'):
                 r2['fallback_level'] = level
                 r2['fallback_reason'] = r['reason']
                 return r2
+            last = r2
+        if last is not None and last.get('reason') and last['reason'] != r['reason']:
+            # with every contract line inside the changed bodies dropped the front end still rejects the unit: that message names
+            # the construct in the changed *code* that is outside the verifier's subset
+            r['reason'] = '%s; with all in-body contract lines dropped: %s' % (r['reason'], last['reason'])
     return r
 
 
